@@ -77,6 +77,18 @@ UFUNCS = {
 }
 UF_KIND = {n: k for k, ns in UFUNCS.items() for n in ns}
 INPLACE = ("to", "rebase", "abse", "rele", "poke")
+# dtype arguments of value(unit, dtype=…): casts that succeed, casts that refuse scalars (list, tuple), casts that
+# refuse nan/inf (int, int32), and something that is no type at all (refuses everything, after the conversion)
+DTYPES = ("int", "float", "str", "complex", "list", "tuple", "int32", "nosuchtype")
+MALFORMED = ["xyz", "m^2", "(m", "k m", "#foo1", "2m"]
+
+
+def mk_dtype(name):
+    np = _np()
+    return {"int": int, "float": float, "str": str, "complex": complex, "list": list, "tuple": tuple,
+            "int32": np.int32, "nosuchtype": "nosuchtype"}[name]
+
+
 # plain-number operands: neutral and absorbing elements of + and * (int and float), and ordinary numbers
 NUMBERS = [0, 1, -1, 0.0, 1.0, 2, 0.5, 3]
 
@@ -90,6 +102,12 @@ def gen_value(rng, fam):
         pool = [0.5, 0.25, -0.5, 0, 1]
     else:
         pool = [1, 2, 3, 0.5, 4, 9, 90, 0, -2, 1000, 0.001]
+    special = rng.random() < 0.06        # a missing value / overflow marker among the numbers
+    if special and kind in ("float", "array", "int"):
+        kind = "array" if kind == "array" else "float"
+        pool = list(pool[:3]) + ["nan", "inf", "-inf"]
+        if kind == "float":
+            pool = ["nan", "inf", "-inf"]
     if kind == "array":
         v = [rng.choice(pool) for _ in range(rng.choice([1, 2, 3]))]
     elif kind == "decimal":
@@ -97,7 +115,8 @@ def gen_value(rng, fam):
     elif kind == "int":
         v = int(rng.choice([1, 2, 3, 4, 9, 90, 0, 20, 30]))
     else:
-        v = float(rng.choice(pool))
+        v = rng.choice(pool)
+        v = v if isinstance(v, str) else float(v)     # "nan"/"inf" stay strings in the (JSON) program
     abse = rng.choice([None, None, 0.1, 0.5]) if kind != "decimal" else None
     return kind, v, abse
 
@@ -119,7 +138,10 @@ def gen_prog(rng, maxops):
         return rng.randrange(nvars)
 
     def unit():
-        return rng.choice(units) if rng.random() < 0.85 else rng.choice(rng.choice(list(FAMILIES.values())))
+        r = rng.random()
+        if r < 0.05:
+            return rng.choice(MALFORMED)       # not a unit expression at all: the query must fail cleanly
+        return rng.choice(units) if r < 0.87 else rng.choice(rng.choice(list(FAMILIES.values())))
 
     def inplace():
         r = rng.random()
@@ -179,7 +201,8 @@ def gen_prog(rng, maxops):
             prog.append(["space1", rng.choice(["lin", "log"]), var(), rng.choice([0, 1, 3]), rng.random() < 0.5])
             nvars += 1
         elif r < 0.84:
-            prog.append(["value", var(), unit()])
+            # value(unit) and value(unit, dtype=…): the cast runs AFTER the conversion and may refuse
+            prog.append(["value", var(), unit()] + ([rng.choice(list(DTYPES))] if rng.random() < 0.5 else []))
         else:
             prog.append(inplace())
     # epilogue: in-place methods on (almost) every live quantity, operands and results alike
@@ -227,7 +250,7 @@ def gen_mixed_prog(rng):
         r = rng.random()
         u = rng.choice(units)
         if r < 0.45:
-            return ["value", i, u]
+            return ["value", i, u] + ([rng.choice(list(DTYPES))] if rng.random() < 0.4 else [])
         if r < 0.8:
             return ["to", i, ["text", u]]
         if r < 0.9:
@@ -342,8 +365,8 @@ def mk_value(kind, v):
     if kind == "decimal":
         return Decimal(v)
     if kind == "array":
-        return list(v)
-    return v
+        return [float(x) for x in v]
+    return float(v) if isinstance(v, str) else v
 
 
 class Impl:
@@ -712,7 +735,12 @@ class Impl:
                 pass
             rec["roles"] = {op[1]: "operand"}
             rec["name"] = "value"
-            ok, r = call(lambda: a.value(op[2]))
+            if len(op) > 3:
+                dt = mk_dtype(op[3])
+                rec["name"] = "value.dtype"
+                ok, r = call(lambda: a.value(op[2], dtype=dt))
+            else:
+                ok, r = call(lambda: a.value(op[2]))
             if not ok:
                 raise _Skip()
             rec["result_array"] = isinstance(r, np.ndarray)
